@@ -11,8 +11,19 @@ STRENGTH = {
  "C19": "memory inner-cache law added (a stream failing part-way leaves no entry, alone and under ConcurrentCacher)", "C01": "the corpus experiment (RejectionCB + learning_info learner + chunk prefix) is run under all seven configurations",
  "C12": "regression corpus of exact ARFF lines (mixed quote styles after a plain row) added", "C08": "error kinds incl. ValueError/AssertionError/EOFError; whole fair round without progress = hang", "C02": "first run with failing evaluations, learner-major tuple lists, real SIGKILL layer",
  "C03": "batched + unbatched environments with non-batch-aware user learners; every triple also run alone in a fresh worker", "C06": "recording learner over every learn x eval x record subset", }
+STRENGTH_ID = {
+ "C04-m3": "pipelines whose logged(...) learner is held by the caller and cannot be pickled; the learner must stay untrained", "C04-m4": "sibling oracle: every environment of one Environments chain read alone vs after its siblings, and pickled",
+ "C05-m3": "choicew without weights added to the operation set (the independence oracle then finds the input)", "C05-m4": "caught as built", "C06-m3": "PMF learners over action lists with duplicate arms", "C06-m4": "extra outputs returned as a read-only Mapping",
+ "C07-m3": "caught as built (restored .gz runs)", "C07-m4": "caught as built (dict cells named like registered reward tags)", "C09-m3": "caught as built", "C09-m4": "caught as built (repeated reads / sibling reads of one Reservoir)",
+ "C10-m3": "caught as built", "C10-m4": "categoricals inside nested lists/dicts of an action, reward functions keyed by equal-but-distinct action objects", "C11-m3": "caught as built", "C11-m4": "caught as built",
+ "C12-m3": "caught as built (embedded line breaks)", "C12-m4": "caught as built (1-byte chunks, CRLF then blank LF line)", "C13-m3": "caught as built", "C13-m4": "lazy sparse ARFF rows with missing cells read by name / as label",
+ "C14-m3": "contexts with headers are also read by name", "C14-m4": "multi-label rewards probed with list, tuple, set and frozenset actions", "C15-m3": "caught as built", "C15-m4": "row-major batches with two-key kwargs",
+ "C16-m3": "caught as built (changing action sets)", "C16-m4": "caught as built (finite T)", "C17-m3": "caught as built", "C17-m4": "tables created without declared columns", "C18-m3": "caught as built", "C18-m4": "caught as built",
+ "C20-m3": "caught as built (interleaved terms such as 'xax')", "C20-m4": "caught as built (number-first mixed sequences)",
+}
 def heading(pid, m):
-    p = os.path.join(WT, pid + "-scratch", "notes.md")
+    sub = "-scratch2" if m in ("m3", "m4", "m5", "m6") else "-scratch"
+    p = os.path.join(WT, pid + sub, "notes.md")
     if not os.path.exists(p): return None
     txt = open(p).read()
     mm = re.search(r"^##\s*%s\b[^\n]*\n(.*?)(?=^##\s|\Z)" % m, txt, re.M | re.S)
@@ -39,7 +50,7 @@ for d in sorted(glob.glob(os.path.join(V, "seeded", "C*-m*"))):
     meta.setdefault("summary", "")
     if sid in PORTED: meta["ported"] = "a later fix: commit touched the same lines; patch.diff is the hand-ported change, original.diff the agent's"
     if sid in OBSOLETE: meta["obsolete"] = OBSOLETE[sid]
-    meta["strengthened"] = STRENGTH.get(pid, "")
+    meta["strengthened"] = STRENGTH_ID.get(sid, STRENGTH.get(pid, "") if m in ("m1", "m2") else "")
     if sid in res: meta["caught"] = res[sid]
     if sid in OBSOLETE: meta["caught"] = "obsolete (harmless on the current tree)"
     json.dump(meta, open(mp, "w"), indent=1, ensure_ascii=False)
